@@ -28,12 +28,38 @@ let atoms_text l = join "," (List.map show_atom l)
 let starts_with p s = String.length s >= String.length p && String.sub s 0 (String.length p) = p
 let after p s = String.sub s (String.length p) (String.length s - String.length p)
 
+(* ---- the code generation step ---- *)
+let string_of_nlist (l : n list) : string = String.concat "" (List.map (fun b -> String.make 1 (Char.chr (int_of_n b))) l)
+(* the text the macro returns for an argument whose Debug text is [dbg]: the model of format!(..) on the format string *)
+let expansion_of_debug (dbg : n list) : n list option = rust_format format_string dbg
+(* the oracle on the implementation's printed text: the extracted reader of the Rust fragment gives back the atoms *)
+let reads_back (dbg : n list) (atoms : atom list) : bool =
+  match expansion_of_debug dbg with Some text -> codegen_oracle atom_eqb text atoms | None -> false
+(* the Spec's variant table (names, arities, field types) as the harness prints the enum's source *)
+let variants_text = String.concat "," (List.map (fun (name, v) ->
+  string_of_nlist name ^ (match v with VUnit _ -> "" | VTuple1 (U8, _) -> ":u8" | VTuple1 (U16, _) -> ":u16" | VTuple1 (U32, _) -> ":u32")) variants)
+
 let shared_expect = "path_attr=1 mod_decl=1 single_copy=1 dep_path=1 reexport=1 cfg_neutral=1"
+  ^ " fmt=" ^ hex_of_nlist format_string ^ " codegen_call=1 debug_derived=1 variants=" ^ variants_text
 
 let handle kind fs obs =
   let bang = String.length obs > 0 && obs.[0] = '!' in
   match kind with
   | "shared" -> (shared_expect, obs = shared_expect, true, "shared-source", None)
+  | "dbg" ->
+    (* a hand-built vector: the real Debug text against the model's, read back by the Spec; the expansion text compiled
+       by rustc (const=) against the vector *)
+    let atoms = List.map parse_atom (split_on ',' (field fs "atoms")) in
+    let mobs = Printf.sprintf "dbg=%s const=ok:%s" (hex_of_nlist (debug_atoms atoms)) (atoms_text atoms) in
+    let ok = (not bang) && (try
+      let ofs = fields (String.split_on_char ' ' obs) in
+      let o_dbg = nlist_of_hex (field ofs "dbg") and o_const = field ofs "const" in
+      starts_with "ok:" o_const
+      && atoms_eqb atom_eqb (List.map parse_atom (split_on ',' (after "ok:" o_const))) atoms
+      && reads_back o_dbg atoms
+    with _ -> false) in
+    let kinds = List.sort_uniq compare (List.map (fun a -> List.hd (String.split_on_char ':' (show_atom a))) atoms) in
+    (mobs, ok, atoms <> [], "debug-vector," ^ (if atoms = [] then "empty-vector" else Printf.sprintf "%d-variants" (List.length kinds)), None)
   | "lit" | "tok" ->
     let ofs = if bang then [] else fields (String.split_on_char ' ' obs) in
     let solo = (try List.assoc "solo" ofs with Not_found -> "-") in
@@ -57,7 +83,11 @@ let handle kind fs obs =
              | Ok (Inr atoms) -> "ok:" ^ atoms_text atoms
              | Ok (Inl (e, pos)) -> Printf.sprintf "err:%s@%d" (show_err e) (int_of_nat pos)
              | _ -> "!fault")) in
-       let mobs = Printf.sprintf "macro=%s str=%s parse=%s solo=%s" m_macro m_str m_parse solo_expect in
+       (* the Debug text of the run-time parser's result: what the macro's format!(..) prints for this literal *)
+       let m_dbg = (match rust with
+         | None -> "-"
+         | Some s -> (match parse (utf8_encode s) with Ok (Inr atoms) -> hex_of_nlist (debug_atoms atoms) | _ -> "-")) in
+       let mobs = Printf.sprintf "macro=%s str=%s parse=%s dbg=%s solo=%s" m_macro m_str m_parse m_dbg solo_expect in
        (* the oracle looks at the implementation's observation only *)
        let in_class = (kind = "lit") && escape_not_supported_by_macro lit in
        let ok = (not bang) && (try
@@ -70,7 +100,12 @@ let handle kind fs obs =
            let str_o = if o_str = "nocompile" then None else Some (nlist_of_hex o_str) in
            let parse_o = if starts_with "ok:" o_parse then Some (atoms_of (after "ok:" o_parse))
                          else if starts_with "err:" o_parse || o_parse = "-" then None else failwith "parse" in
+           let o_dbg = field ofs "dbg" in
            c17_oracle str_o parse_o macro_o
+           (* the implementation's printed text, read as Rust by the extracted Spec, is the vector it was printed from *)
+           && (match parse_o with
+               | Some a when starts_with "ok:" o_parse -> o_dbg <> "-" && reads_back (nlist_of_hex o_dbg) a
+               | _ -> o_dbg = "-")
            (* a pattern the run-time parser rejects is refused at compile time with the same error at the same position *)
            && (if starts_with "err:" o_parse && starts_with "nocompile:pattern:" o_macro then after "err:" o_parse = after "nocompile:pattern:" o_macro else true)
            && solo = solo_expect
